@@ -344,6 +344,63 @@ func c16SpecialCases() []c16Case {
 			c16ArtPol(c16PolWhen(c16EBin("in", A, c16EEnt("Action", "a199")))),
 			c16ArtEnt(c16Ent{UID: c16UID{"Action", "a0"}, Attrs: c16VRec(), Tags: c16VRec()}))
 	}
+	// layered action groups: k levels of two groups, each a member of both groups of the level
+	// above (2^k upward paths, 2k+1 actions). Everything that walks the hierarchy must be
+	// polynomial in the number of actions, i.e. remember what it has visited.
+	for _, k := range []int{6, 48} {
+		var as []c16Action
+		name := func(l, j int) string { return fmt.Sprintf("g%d_%d", l, j) }
+		for l := 0; l < k; l++ {
+			for j := 0; j < 2; j++ {
+				a := c16Action{Name: name(l, j)}
+				if l+1 < k {
+					a.Parents = []c16ParentRef{{ID: name(l+1, 0)}, {ID: name(l+1, 1)}}
+				}
+				as = append(as, a)
+			}
+		}
+		as = append(as, c16Action{Name: "view", HasApplies: true, Principals: []string{"U"}, Resources: []string{"U"}, Parents: []c16ParentRef{{ID: name(0, 0)}, {ID: name(0, 1)}}},
+			c16Action{Name: "lonely", HasApplies: true, Principals: []string{"U"}, Resources: []string{"U"}})
+		var all []c16UID
+		for l := 0; l < k; l++ {
+			all = append(all, c16UID{"Action", name(l, 0)}, c16UID{"Action", name(l, 1)})
+		}
+		s := c16Schema{NS: []c16NS{{Name: "", Entities: []c16Entity{{Name: "U"}}, Actions: as}}}
+		add(fmt.Sprintf("layered action groups, %d levels of two", k), s,
+			c16ArtPol(c16PolScope(c16ScAll(), c16ScIn(c16UID{"Action", name(k-1, 1)}), c16ScAll())),
+			c16ArtPol(c16PolScope(c16ScAll(), c16ScIn(c16UID{"Action", "lonely"}), c16ScAll())),
+			c16ArtPol(c16PolWhen(c16EBin("in", A, c16EEnt("Action", "lonely")))),
+			c16ArtPol(c16PolWhen(c16EBin("in", A, c16EEnt("Action", name(k-1, 0))))),
+			c16ArtEnt(c16Ent{UID: c16UID{"Action", "view"}, Parents: all, Attrs: c16VRec(), Tags: c16VRec()}),
+			c16ArtEnt(c16Ent{UID: c16UID{"Action", "view"}, Parents: append(append([]c16UID{}, all...), c16UID{"Action", "lonely"}), Attrs: c16VRec(), Tags: c16VRec()}),
+			c16ArtEnt(c16Ent{UID: c16UID{"Action", "view"}, Parents: all[:len(all)-1], Attrs: c16VRec(), Tags: c16VRec()}),
+			c16ArtEnt(c16Ent{UID: c16UID{"Action", "lonely"}, Parents: all[:1], Attrs: c16VRec(), Tags: c16VRec()}),
+			c16ArtReq(c16Req{P: c16UID{"U", "u"}, A: c16UID{"Action", "view"}, R: c16UID{"U", "v"}, Ctx: c16VRec()}))
+	}
+	// the same ladder over entity types
+	for _, k := range []int{6, 40} {
+		var es []c16Entity
+		name := func(l, j int) string { return fmt.Sprintf("L%d_%d", l, j) }
+		for l := 0; l < k; l++ {
+			for j := 0; j < 2; j++ {
+				e := c16Entity{Name: name(l, j)}
+				if l+1 < k {
+					e.Parents = []string{name(l+1, 0), name(l+1, 1)}
+				}
+				es = append(es, e)
+			}
+		}
+		es = append(es, c16Entity{Name: "U", Parents: []string{name(0, 0), name(0, 1)}}, c16Entity{Name: "Lonely"})
+		s := c16Schema{NS: []c16NS{{Name: "", Entities: es, Actions: []c16Action{{Name: "view", HasApplies: true, Principals: []string{"U"}, Resources: []string{"U", "Lonely"}}}}}}
+		add(fmt.Sprintf("layered entity types, %d levels of two", k), s,
+			c16ArtPol(c16PolWhen(c16EBin("in", P, c16EEnt("Lonely", "x")))),
+			c16ArtPol(c16PolWhen(c16EBin("in", P, c16EEnt(name(k-1, 1), "x")))),
+			c16ArtPol(c16PolScope(c16ScIn(c16UID{"Lonely", "x"}), c16ScAll(), c16ScAll())),
+			c16ArtPol(c16PolScope(c16ScAll(), c16ScAll(), c16ScIn(c16UID{name(k-1, 0), "x"}))),
+			c16ArtEnt(c16Ent{UID: c16UID{"U", "u"}, Parents: []c16UID{{name(0, 0), "a"}, {name(k-1, 1), "b"}}, Attrs: c16VRec(), Tags: c16VRec()}),
+			c16ArtEnt(c16Ent{UID: c16UID{"U", "u"}, Parents: []c16UID{{"Lonely", "a"}}, Attrs: c16VRec(), Tags: c16VRec()}),
+			c16ArtReq(c16Req{P: c16UID{"U", "u"}, A: c16UID{"Action", "view"}, R: c16UID{"Lonely", "v"}, Ctx: c16VRec()}))
+	}
 	// names that collide with built-ins / reserved namespace
 	add("declarations named like built-ins, __cedar namespace", c16Schema{NS: []c16NS{
 		{Name: "", Commons: []c16Common{{Name: "Long", T: c16TString()}, {Name: "T", T: c16TRef("__cedar::Long")}, {Name: "W", T: c16TRef("__cedar::Nope")}},
